@@ -648,6 +648,8 @@ class FileWeaver:
                 raise WeaveError("ret: given but %s has no return type" % key)
         if spec and spec.genpost:
             self.gen_post(spec, owner, j, pclose, it)
+        if spec and mode != "external":
+            self.gen_vacuity(spec, owner, j, pclose, key)
         # contract clauses
         if spec and (spec.requires or spec.ensures or spec.decreases or spec.opens_invariants):
             text, marks = self.render_clauses(spec)
@@ -656,6 +658,67 @@ class FileWeaver:
             return
         # N2 + loops + hints inside the body
         self.body(it, spec, key)
+
+    def fn_params(self, popen, pclose):
+        """[(name, type_text)] of the non-self parameters; has_self"""
+        toks = self.toks
+        params = []
+        has_self = False
+        i = next_sig(toks, popen + 1)
+        idx = 0
+        while i < pclose:
+            q = i
+            depth = 0
+            while q < pclose:
+                t = toks[q]
+                if t.kind == PUNCT:
+                    if t.text in "([{":
+                        q = match_close(toks, q)
+                    elif t.text == "<":
+                        depth += 1
+                    elif t.text == ">" and toks[q - 1].text != "-":
+                        depth -= 1
+                    elif t.text == "," and depth == 0:
+                        break
+                q += 1
+            ptoks = [t for t in toks[i:q] if t.sig()]
+            txt = [t.text for t in ptoks]
+            if "self" in txt and ":" not in txt:
+                has_self = True
+            elif ptoks:
+                if ptoks[0].text == "(":
+                    name = "__p%d" % idx
+                    k = txt.index(":", txt.index(")"))
+                else:
+                    name = ptoks[1].text if ptoks[0].text == "mut" else ptoks[0].text
+                    k = txt.index(":")
+                ty = self.src[ptoks[k + 1].pos:ptoks[-1].end]
+                params.append((name, ty))
+            idx += 1
+            i = next_sig(toks, q + 1)
+        return params, has_self
+
+    def gen_vacuity(self, spec, owner, popen, pclose, key):
+        if not spec.requires:
+            return
+        params, has_self = self.fn_params(popen, pclose)
+        if any(("impl " in t or "'" in t or "dyn " in t) for _, t in params):
+            return
+        if has_self and ("<" in owner or " as " in owner and "<" in owner.split(" as ")[0]):
+            return
+        own_ty = owner.split(" as ")[0] if owner else ""
+        sig = []
+        if has_self:
+            sig.append("self_: %s" % own_ty)
+        sig += ["%s: %s" % (n, t) for n, t in params]
+        reqs = []
+        for c in spec.requires:
+            t = c.text.replace("*old(self)", "self_").replace("old(self)", "self_")
+            t = re.sub(r"\bself\b", "self_", t)
+            reqs.append("        (%s)," % t)
+        name = "vac_" + re.sub(r"[^A-Za-z0-9]+", "_", key)
+        self.report.setdefault("vacuity", []).append(
+            "/// %s\npub proof fn %s(%s)\n    requires\n%s\n    ensures false,\n{}\n" % (key, name, ", ".join(sig), "\n".join(reqs)))
 
     def gen_post(self, spec, owner, popen, pclose, it):
         """spec predicate  NAME(o: Owner, f: Owner, params..)  = conjunction of the ensures
@@ -1288,6 +1351,17 @@ def weave_tree(repo, out, extra_modules=None, contracts_dir=CONTRACTS, vacuity=F
                                                  "line_start": line_of(woven, wt[qi].pos) + shift,
                                                  "line_end": line_of(woven, wt[e].end) + shift,
                                                  "tags": tags, "contracted": True})
+    # vacuity probes: one proof fn per contracted function, `requires` = its preconditions,
+    # `ensures false`; every probe must FAIL (a probe that verifies = contradictory precondition)
+    probes = report.get("vacuity", [])
+    anchors["vacuity_probes"] = len(probes)
+    with open(os.path.join(out, "src", "verif_vacuity.rs"), "w", encoding="utf-8") as fh:
+        fh.write("#![allow(unused_imports)]\nuse vstd::prelude::*;\nuse std::ops::Range;\n"
+                 "use crate::buffer::*; use crate::cell::*; use crate::charset::*; use crate::color::*; use crate::line::*;\n"
+                 "use crate::parser::*; use crate::pen::*; use crate::tabs::*; use crate::terminal::*; use crate::vt::*;\n"
+                 "use crate::terminal::cursor::*; use crate::terminal::dirty_lines::*; use crate::MEM_MAX;\n"
+                 "verus! {\n" + "\n".join(probes) + "\n} // verus!\n")
+    report["vacuity"] = len(probes)
     # extra modules (lemmas, vacuity)
     lem_dir = os.path.join(contracts_dir, "lemmas")
     if os.path.isdir(lem_dir):
@@ -1301,7 +1375,7 @@ def weave_tree(repo, out, extra_modules=None, contracts_dir=CONTRACTS, vacuity=F
 
 
 def lib_extra(contracts_dir, extra):
-    out = []
+    out = ["pub mod verif_vacuity;\n"]
     lem_dir = os.path.join(contracts_dir, "lemmas")
     if os.path.isdir(lem_dir):
         for f in sorted(os.listdir(lem_dir)):
